@@ -1,6 +1,7 @@
 /- driver family `path`: C09/C10 histories over exact data (V3 Int, signed-permutation M3 Int) -/
 import MagpyVerif.Model.Tree
 import MagpyVerif.Model.Angax
+import MagpyVerif.Model.History
 import Driver.KernFam
 import Driver.Parse
 
@@ -53,7 +54,7 @@ partial def dump : Tree → String
 
 inductive Cmd where
   | new (t : Tree)
-  | op (o : Op Rot Vec)
+  | op (o : HOp Float Rot Vec)
   | unsnappable
 
 /-! `rotate_from_angax`: the conversion (Model/Angax.lean) runs in IEEE double; scipy's `from_rotvec`
@@ -75,31 +76,95 @@ def axisIn : P (Angax.AxisIn Float) := do
   | "vec" => pure (.vec (← KernFam.v3))
   | t => throw s!"bad axis tag {t}"
 
+/-! the six `rotate_from_*` entry points (Model/RotFrom.lean): the raw arguments travel as bit patterns, the
+model classifies scalar / vector input and converts; each scipy constructor for ONE parameter set is replaced by
+its closed form evaluated in IEEE double and snapped to the integer grid (the harness snaps scipy's result the
+same way). -/
+
+def snapOr1 (m : M3 Float) : Rot := (snapM m).getD 1
+
+def driverScipy : RotFrom.Scipy Float Rot where
+  fromRotvec := fromRotvecSnap
+  fromQuat q := (RotFrom.quatMatrix q).map snapOr1
+  fromMrp m := match RotFrom.quatMatrix (RotFrom.mrpQuat m) with
+    | some M => snapOr1 M
+    | none => 1
+  fromMatrix M := if RotFrom.det3 M ≤ 0 then none else some (snapOr1 M)
+
+def m3f : P (M3 Float) := do pure ⟨← KernFam.v3, ← KernFam.v3, ← KernFam.v3⟩
+def q4f : P (RotFrom.Q4 Float) := do pure ⟨← KernFam.flt, ← KernFam.flt, ← KernFam.flt, ← KernFam.flt⟩
+
+def eulerIn : P (RotFrom.EulerIn Float) := do
+  match (← tok) with
+  | "num" => pure (.num (← KernFam.flt))
+  | "arr1" => do let k ← nat; pure (.arr1 (← many k KernFam.flt))
+  | "arr2" => do
+      let k ← nat; let w ← nat
+      pure (.arr2 (← many k (many w KernFam.flt)))
+  | t => throw s!"bad euler tag {t}"
+
+def seqTok : P String := do
+  let t ← tok
+  pure (if t = "EMPTY" then "" else t)
+
+def entry : P (RotFrom.Entry Float) := do
+  match (← tok) with
+  | "angax" => do
+      let ang ← pathIn KernFam.flt; let ax ← axisIn; let deg ← nat
+      pure (.angax ang ax (deg != 0))
+  | "rotvec" => do
+      let rv ← pathIn KernFam.v3; let deg ← nat
+      pure (.rotvec rv (deg != 0))
+  | "euler" => do
+      let a ← eulerIn; let sq ← seqTok; let deg ← nat
+      pure (.euler a sq (deg != 0))
+  | "matrix" => do pure (.matrix (← pathIn m3f))
+  | "mrp" => do pure (.mrp (← pathIn KernFam.v3))
+  | "quat" => do pure (.quat (← pathIn q4f))
+  | t => throw s!"bad entry tag {t}"
+
+/-- a subtree with explicit paths, preorder: `k P n v.. O n r..` followed by the `k` children -/
+partial def subtree : P Tree := do
+  let k ← nat
+  let _ ← tok; let np ← nat; let ps ← many np vec
+  let _ ← tok; let no ← nat; let qs ← many no rot
+  let cs ← many k subtree
+  pure (.mk { pos := ps, ori := qs } cs)
+
 def cmd : P Cmd := do
   match (← tok) with
   | "new" => pure (.new (← shape))
   | "move" => do
       let a ← addr; let i ← pathIn vec; let s ← start
-      pure (.op (.move a i s))
+      pure (.op (.base (.move a i s)))
   | "rot" => do
       let a ← addr; let r ← pathIn rot; let an ← anchor; let s ← start
-      pure (.op (.rotate a r an s))
+      pure (.op (.base (.rotate a r an s)))
   | "setpos" => do
       let a ← addr; let n ← nat; let xs ← many n vec
-      pure (.op (.setPos a xs))
+      pure (.op (.base (.setPos a xs)))
   | "setori" => do
       let a ← addr; let n ← nat; let xs ← many n rot
-      pure (.op (.setOri a xs))
+      pure (.op (.base (.setOri a xs)))
   | "reset" => do
       let a ← addr
-      pure (.op (.reset a))
+      pure (.op (.base (.reset a)))
   | "angax" => do
       let a ← addr; let ang ← pathIn KernFam.flt; let ax ← axisIn; let deg ← nat; let an ← anchor; let s ← start
       match Angax.angaxRotvecs ang ax (deg != 0) with
       | .ok rv => if rv.toList.any (fun v => (snapM (Angax.rotvecMatrix v)).isNone) then pure .unsnappable
-                  else pure (.op (Angax.angaxOp fromRotvecSnap a ang ax (deg != 0) an s))
-      | .error _ => pure (.op (Angax.angaxOp fromRotvecSnap a ang ax (deg != 0) an s))
-  | "bad" => pure (.op .rejected)
+                  else pure (.op (.rotFrom a (.angax ang ax (deg != 0)) an s))
+      | .error _ => pure (.op (.rotFrom a (.angax ang ax (deg != 0)) an s))
+  | "rotfrom" => do
+      let a ← addr; let e ← entry; let an ← anchor; let s ← start
+      pure (.op (.rotFrom a e an s))
+  | "add" => do
+      let a ← addr; let c ← subtree
+      pure (.op (.add a c))
+  | "remove" => do
+      let a ← addr; let j ← nat
+      pure (.op (.remove a j))
+  | "bad" => pure (.op (.base .rejected))
   | t => throw s!"unknown path command {t}"
 
 def step (st : Option Tree) (line : String) : Option Tree × String :=
@@ -109,8 +174,11 @@ def step (st : Option Tree) (line : String) : Option Tree × String :=
   | .ok .unsnappable => (st, "unsnappable")
   | .ok (.op o) => match st with
       | some t =>
-        let t' := t.step o
-        let tag := match o with | .rejected => "err" | _ => "ok"
+        let t' := t.hstep driverScipy o
+        let tag := match o with
+          | .base .rejected => "err"
+          | .rotFrom _ e _ _ => (match RotFrom.toRot driverScipy e with | .error _ => "err" | .ok _ => "ok")
+          | _ => "ok"
         (some t', s!"{tag} {dump t'}")
       | none => (st, "no-tree")
 
